@@ -186,7 +186,7 @@ class SymCtx:
 
     def choice(self, name, menu, lazy=False):
         menu = list(menu)
-        if len(menu) == 1:
+        if len(menu) == 1 and not lazy:
             self.inputs[name] = ('const', 0)
             return menu[0]
         v = z3.Int(name)
@@ -354,6 +354,34 @@ class SymCtx:
         self._reset()
 
 
+class ConcreteChoice:
+    """What ``choice(..., lazy=True)`` gives in a concrete run."""
+
+    def __init__(self, idx, menu):
+        self.var = z3.IntVal(idx)
+        self.menu = list(menu)
+        self._v = self.menu[idx]
+
+    def concretize(self):
+        return self._v
+
+    value = property(concretize)
+
+    def __eq__(self, other):
+        if isinstance(other, ConcreteChoice):
+            other = other._v
+        return self._v == other
+
+    def __ne__(self, other):
+        return not self.__eq__(other)
+
+    def __hash__(self):
+        return hash(self._v)
+
+    def __str__(self):
+        return str(self._v)
+
+
 class ConcreteCtx:
     symbolic = False
 
@@ -371,9 +399,10 @@ class ConcreteCtx:
 
     def choice(self, name, menu, lazy=False):
         menu = list(menu)
-        if len(menu) == 1:
-            return menu[0]
-        return menu[self.inputs[name]]
+        idx = 0 if len(menu) == 1 else self.inputs[name]
+        if lazy:
+            return ConcreteChoice(idx, menu)
+        return menu[idx]
 
     def index(self, name, n):
         return self.choice(name, range(n))
